@@ -17,7 +17,7 @@ import uuid
 
 VERIF = os.path.dirname(os.path.dirname(os.path.abspath(__file__)))
 REPO = os.environ.get("VERIF_REPO", "/repo")
-CACHE = os.path.join(VERIF, ".cache")
+CACHE = os.environ.get("VERIF_CACHE") or os.path.join(VERIF, ".cache")
 TARGET = os.path.join(CACHE, "target")
 MIRFACTS = os.path.join(VERIF, "tools/mirfacts/target/debug/mirfacts")
 SYNFACTS = os.path.join(VERIF, "tools/synfacts/target/debug/synfacts")
